@@ -187,7 +187,7 @@ package client
 //@ ensures [C10:build] calls(BH) <= 1 && (calls(BH) == 1 ==> arg(BH,0,0) == ret(NR,0,0) && arg(BH,0,2) == old(r.BasePath) && arg(BH,0,3) == old(r.Producers) && arg(BH,0,4) == old(r.Formats))
 //@ ensures [C14:credential] calls(BH) == 1 ==> (old(operation.AuthInfo) != nil ==> arg(BH,0,5) == old(operation.AuthInfo) && calls(C1) == 0) && (old(operation.AuthInfo) == nil && old(r.DefaultAuthentication) == nil ==> arg(BH,0,5) == nil && calls(C1) == 0) && (old(operation.AuthInfo) == nil && old(r.DefaultAuthentication) != nil ==> calls(C1) == 1 && captured(C1,0,"r") == r && arg(BH,0,5) == boxas(ret(C1,0,0), "runtime.ClientAuthInfoWriterFunc"))
 //@ ensures [C10:buildfail] calls(BH) == 1 && ret(BH,0,1) != nil ==> result0 == nil && result1 == nil && result2 == ret(BH,0,1) && calls(PS) == 0
-//@ ensures [C10:scheme] result2 == nil ==> calls(BH) == 1 && calls(PS) == 1 && arg(PS,0,0) == r && result0 == ret(NR,0,0) && result1 == ret(BH,0,0) && result1 != nil && result1.URL != nil && result1.URL.Scheme == ret(PS,0,0) && result1.URL.Host == r.Host && result1.Host == r.Host
+//@ ensures [C10:scheme] result2 == nil ==> calls(BH) == 1 && calls(PS) == 1 && arg(PS,0,0) == r && result0 == ret(NR,0,0) && result0 != nil && result1 == ret(BH,0,0) && result1 != nil && result1.URL != nil && result1.URL.Scheme == ret(PS,0,0) && result1.URL.Host == r.Host && result1.Host == r.Host
 //@ loop 0 invariant calls(NR) == 1 && calls(SH) == 1 && calls(BH) == 0 && calls(PS) == 0 && request == ret(NR,0,0) && request != nil && request.writer == old(operation.Params)
 //@ loop 0 invariant calls(C1) == (old(operation.AuthInfo) == nil && old(r.DefaultAuthentication) != nil ? 1 : 0)
 
